@@ -9,6 +9,7 @@ import (
 	"math"
 	"sort"
 
+	"github.com/openGemini/openGemini/engine/immutable"
 	"github.com/openGemini/openGemini/lib/util/lifted/influx/influxql"
 	"github.com/openGemini/openGemini/verifsim/core"
 )
@@ -150,6 +151,14 @@ func aggChecks(env *core.Env, sh *shard, model *sModel, c SCase, r *core.Rand, o
 			}
 			q.TMin, q.TMax = sTime(a), sTime(b)
 		}
+		if r.Bool(0.35) {
+			// two calls in one statement (sparse fields make their statistics differ)
+			f2 := core.Pick(r, sFieldNames)
+			fn2 := core.Pick(r, sAggFuncs[f2])
+			if !(f2 == field && fn2 == fn) {
+				q.Call2, q.CallField2 = fn2, f2
+			}
+		}
 		form := "bare"
 		switch r.Intn(4) {
 		case 1:
@@ -182,11 +191,26 @@ func aggChecks(env *core.Env, sh *shard, model *sModel, c SCase, r *core.Rand, o
 
 func checkAggPair(sh *shard, q *sQuery, form string, out *core.Outcome, prop string, i int, after string, multiGen func(m int, tmin, tmax int64) bool) *core.Violation {
 	at := map[string]string{"after": after, "form": form, "fn": q.Call, "ftype": q.CallField}
-	// plain select over the same filter, range and grouping
-	pq := &sQuery{Mst: q.Mst, Fields: []string{q.CallField}, TMin: q.TMin, TMax: q.TMax, Where: q.Where, GroupTags: q.GroupTags, ChunkSize: 1024, Parallel: 1}
-	if q.Where != "" && q.CallField != "fi" {
-		pq.Fields = []string{q.CallField, "fi"}
+	if q.Call2 != "" {
+		at["calls"] = "2"
 	}
+	// plain select over the same filter, range and grouping
+	fields := []string{q.CallField}
+	addField := func(f string) {
+		for _, x := range fields {
+			if x == f {
+				return
+			}
+		}
+		fields = append(fields, f)
+	}
+	if q.Call2 != "" {
+		addField(q.CallField2)
+	}
+	if q.Where != "" {
+		addField("fi")
+	}
+	pq := &sQuery{Mst: q.Mst, Fields: fields, TMin: q.TMin, TMax: q.TMax, Where: q.Where, GroupTags: q.GroupTags, ChunkSize: 1024, Parallel: 1}
 	plain, _, err := selectRows(sh, pq)
 	out.Stats["reads"]++
 	if err != nil {
@@ -198,74 +222,90 @@ func checkAggPair(sh *shard, q *sQuery, form string, out *core.Outcome, prop str
 		out.Stats["agg_pairs_skipped_multi_generation"]++
 		return nil
 	}
-	want := refAggregate(plain, q.CallField, q.Call, q.Interval)
 	rows, err := runQuery(sh, q)
 	out.Stats["agg_pairs"]++
 	out.Stats["agg_"+form]++
+	if q.Call2 != "" {
+		out.Stats["agg_two_calls"]++
+	}
 	if err != nil {
 		return sviol(prop, "agg_read_error", fmt.Sprintf("after op %d (%s): %v", i, after, err), at)
 	}
-	got := map[sAggKey]sVal{}
-	for _, r := range rows {
-		if len(r.Vals) == 0 || r.Vals[0] == nil {
-			continue
-		}
-		k := sAggKey{group: r.Group}
-		if q.Interval > 0 {
-			k.bucket = r.Time - ((r.Time%q.Interval)+q.Interval)%q.Interval
-		}
-		if _, dup := got[k]; dup {
-			return sviol(prop, "agg_duplicate_group", fmt.Sprintf("after op %d (%s): %s returned two rows for group %s bucket %d", i, after, q.text(), k.group, k.bucket), at)
-		}
-		got[k] = *r.Vals[0]
+	type callT struct{ fn, field string }
+	calls := []callT{{q.Call, q.CallField}}
+	if q.Call2 != "" {
+		calls = append(calls, callT{q.Call2, q.CallField2})
 	}
-	var keys []sAggKey
-	seen := map[sAggKey]bool{}
-	for k := range want {
-		keys = append(keys, k)
-		seen[k] = true
-	}
-	for k := range got {
-		if !seen[k] {
+	for ci, cl := range calls {
+		want := refAggregate(plain, cl.field, cl.fn, q.Interval)
+		alts := sAggAlt
+		at["fn"], at["ftype"] = cl.fn, cl.field
+		got := map[sAggKey]sVal{}
+		for _, r := range rows {
+			if len(r.Vals) <= ci || r.Vals[ci] == nil {
+				continue
+			}
+			k := sAggKey{group: r.Group}
+			if q.Interval > 0 {
+				k.bucket = r.Time - ((r.Time%q.Interval)+q.Interval)%q.Interval
+			}
+			if _, dup := got[k]; dup {
+				return sviol(prop, "agg_duplicate_group", fmt.Sprintf("after op %d (%s): %s returned two rows for group %s bucket %d", i, after, q.text(), k.group, k.bucket), at)
+			}
+			got[k] = *r.Vals[ci]
+		}
+		var keys []sAggKey
+		seen := map[sAggKey]bool{}
+		for k := range want {
 			keys = append(keys, k)
+			seen[k] = true
 		}
-	}
-	sort.Slice(keys, func(a, b int) bool {
-		if keys[a].group != keys[b].group {
-			return keys[a].group < keys[b].group
-		}
-		return keys[a].bucket < keys[b].bucket
-	})
-	for _, k := range keys {
-		w, wok := want[k]
-		g, gok := got[k]
-		desc := fmt.Sprintf("%s [t%d..t%d] group %s", q.text(), (q.TMin-sBaseTime)/sStep, (q.TMax-sBaseTime)/sStep, k.group)
-		if q.Interval > 0 {
-			desc += fmt.Sprintf(" bucket t%d", (k.bucket-sBaseTime)/sStep)
-		}
-		switch {
-		case wok && !gok:
-			if q.Call == "count" || q.Call == "sum" {
-				// an absent row and a zero count are the same answer at this level
+		for k := range got {
+			if !seen[k] {
+				keys = append(keys, k)
 			}
-			return sviol(prop, "agg_missing_group", fmt.Sprintf("after op %d (%s): %s: no aggregate row, but the plain select has %d matching rows (expected %s)\n  files: %s", i, after, desc, countRows(plain, k, q), w, fileLayout(sh, q.Mst)), at)
-		case !wok && gok:
-			if q.Call == "count" && g.I == 0 {
-				continue
+		}
+		sort.Slice(keys, func(a, b int) bool {
+			if keys[a].group != keys[b].group {
+				return keys[a].group < keys[b].group
 			}
-			return sviol(prop, "agg_extra_group", fmt.Sprintf("after op %d (%s): %s: aggregate row %s, but the plain select returns no value for the field\n  files: %s", i, after, desc, g, fileLayout(sh, q.Mst)), at)
-		case !aggValEq(g, w):
-			tie := false
-			for _, alt := range sAggAlt[k] {
-				if aggValEq(g, alt) {
-					tie = true
+			return keys[a].bucket < keys[b].bucket
+		})
+		for _, k := range keys {
+			w, wok := want[k]
+			g, gok := got[k]
+			desc := fmt.Sprintf("%s [t%d..t%d] column %d = %s(%s) group %s", q.text(), (q.TMin-sBaseTime)/sStep, (q.TMax-sBaseTime)/sStep, ci, cl.fn, cl.field, k.group)
+			if q.Interval > 0 {
+				desc += fmt.Sprintf(" bucket t%d", (k.bucket-sBaseTime)/sStep)
+			}
+			switch {
+			case wok && !gok:
+				n := 0
+				for _, r := range plain[k.group] {
+					if _, ok := r.Fields[cl.field]; ok {
+						n++
+					}
 				}
+				return sviol(prop, "agg_missing_group", fmt.Sprintf("after op %d (%s): %s: no aggregate value, but the plain select has %d matching rows (expected %s)\n  files: %s", i, after, desc, n, w, fileLayout(sh, q.Mst)), at)
+			case !wok && gok:
+				if cl.fn == "count" && g.I == 0 {
+					continue
+				}
+				return sviol(prop, "agg_extra_group", fmt.Sprintf("after op %d (%s): %s: aggregate value %s, but the plain select returns no value for the field\n  files: %s", i, after, desc, g, fileLayout(sh, q.Mst)), at)
+			case !aggValEq(g, w):
+				tie := false
+				for _, alt := range alts[k] {
+					if aggValEq(g, alt) {
+						tie = true
+					}
+				}
+				if tie {
+					out.Stats["agg_ties_accepted"]++
+					continue
+				}
+				at["ooo_ahead"] = fmt.Sprint(oooAhead(sh, q.Mst))
+				return sviol(prop, "agg_mismatch", fmt.Sprintf("after op %d (%s): %s: aggregate = %s, function over the plain select's rows = %s\n  files: %s", i, after, desc, g, w, fileLayout(sh, q.Mst)), at)
 			}
-			if tie {
-				out.Stats["agg_ties_accepted"]++
-				continue
-			}
-			return sviol(prop, "agg_mismatch", fmt.Sprintf("after op %d (%s): %s: aggregate = %s, function over the plain select's rows = %s\n  files: %s", i, after, desc, g, w, fileLayout(sh, q.Mst)), at)
 		}
 	}
 	return nil
@@ -279,4 +319,30 @@ func countRows(plain map[string][]sDumpRow, k sAggKey, q *sQuery) int {
 		}
 	}
 	return n
+}
+
+// oooAhead reports whether an out-of-order file of the measurement holds times
+// beyond every ordered file (the layout left by a flush that ran while the
+// per-series flush times were not loaded: everything goes to an out-of-order file).
+func oooAhead(sh *shard, m int) bool {
+	name := sMstName(m)
+	maxOrdered, maxOOO := int64(math.MinInt64), int64(math.MinInt64)
+	for _, order := range []bool{true, false} {
+		files, ok := sh.immTables.GetTSSPFiles(name, order)
+		if !ok || files == nil {
+			continue
+		}
+		for _, f := range files.Files() {
+			_, mx, _ := f.MinMaxTime()
+			if order && mx > maxOrdered {
+				maxOrdered = mx
+			}
+			if !order && mx > maxOOO {
+				maxOOO = mx
+			}
+		}
+		immutable.UnrefFilesReader(files.Files()...)
+		immutable.UnrefFiles(files.Files()...)
+	}
+	return maxOOO > maxOrdered && maxOOO != math.MinInt64
 }
